@@ -27,7 +27,7 @@ RULE = ("per run a history of 3-9 operations over up to 3 BEC2 files sharing a p
 REAL = ["bec2format.bec2file", "bec2format.bf3file", "bec2format.crypto", "register_crypto_plugin", "pyaes", "ecdsa"]
 STUBS = ["medium: SimFS", "RNG: SimRng (never repeats, logs call-site class)", "key-generation observer",
          "device model: RefAES/RefCRC/RefP256"]
-PROBES = ["bf3-object-shared-between-files", "splice-insert-same-tag", "keyless-constructor", "repeated-write-same-object", "rewrite-with-opaque-block", "splice-different-keys",
+PROBES = ["fork-child-and-parent-draw-keys", "bf3-object-shared-between-files", "splice-insert-same-tag", "keyless-constructor", "repeated-write-same-object", "rewrite-with-opaque-block", "splice-different-keys",
           "splice-equal-keys", "splice-rejected", "ecc-default-recipient-unwrapped", "three-blocks-unwrapped",
           "two-files-distinct-keys", "ephemeral-points-compared"]
 ASSUMPTIONS = ["'rejected' for a spliced header means: read with decryptors for both blocks raises"]
@@ -68,6 +68,8 @@ def gen(st, tier):
         elif r < 0.40:
             f = w.choice(list(files_))
             ops.append(["write", f, "f%d.bec2" % f])
+            if w.random() < 0.15:
+                ops.append(["fork_new", w.randrange(len(objs))])
         elif r < 0.50:
             f = w.choice(list(files_))
             cand = [b for b in (0, 1, 2, 3, 4) if b not in files_[f]
@@ -133,6 +135,8 @@ def run(case):
         keys_drawn = []
         points = []
         shared = {}
+        used = []      # (draw index, start, end) of RNG output bytes already turned into a session key
+        nforks = 0
         nops = 0
         for op in case["ops"]:
             nops += 1
@@ -165,11 +169,7 @@ def run(case):
                 out.ev("new", f, bool(key), len(nd))
                 if key is None:
                     out.probes["keyless-constructor"] += 1
-                    sess = [d for d in nd if d[1] == 16]
-                    if not sess:
-                        out.fail("C07.fresh-key", "no-draw", "Bec2File() without session key made no 16-byte RNG draw")
-                    elif obj.session_key != sess[-1][2]:
-                        out.fail("C07.fresh-key", "not-the-draw", "session key is not the drawn random value")
+                    _check_fresh(out, rng, obj.session_key, used)
                     if len(obj.session_key) != 16:
                         out.fail("C07.fresh-key", "length", "drawn session key has %d bytes" % len(obj.session_key))
                     if obj.session_key in keys_drawn:
@@ -180,6 +180,37 @@ def run(case):
                         out.probes["two-files-distinct-keys"] += 1
                 elif obj.session_key != bytes.fromhex(key):
                     out.fail("C07.given-key", "ignored", "supplied session key not used")
+                continue
+            if kind == "fork_new":
+                import os as _os
+                nforks += 1
+                bf3c = G.build_bf3(case["objs"][op[1]], env)
+                rfd, wfd = _os.pipe()
+                pid = _os.fork()
+                if pid == 0:
+                    # child process: same library state, but the OS RNG stream is its own
+                    try:
+                        rng.reseed_for_child(nforks)
+                        child = bf.Bec2File(bf3c, [], None)
+                        _os.write(wfd, bytes(child.session_key))
+                    finally:
+                        _os._exit(0)
+                _os.close(wfd)
+                ckey = _os.read(rfd, 64)
+                _os.close(rfd)
+                _os.waitpid(pid, 0)
+                parent = bf.Bec2File(bf3c, [], None)
+                out.fired["fork"] += 1
+                out.probes["fork-child-and-parent-draw-keys"] += 1
+                out.ev("fork_new", len(ckey))
+                if len(ckey) != 16:
+                    out.fail("C07.fresh-key", "fork-child-failed", "forked child produced no session key")
+                elif ckey == parent.session_key or ckey in keys_drawn:
+                    out.fail("C07.fresh-key", "fork-same-key", "after a fork, child and parent (or an earlier file) "
+                             "use the same 'fresh' session key %s" % ckey.hex())
+                _check_fresh(out, rng, parent.session_key, used)
+                keys_drawn.append(parent.session_key)
+                keys_drawn.append(ckey)
                 continue
             if kind == "add":
                 _, f, b = op
@@ -408,6 +439,23 @@ def run(case):
     finally:
         env.restore_registry()
     return out
+
+
+def _check_fresh(out, rng, key, used):
+    """the session key must be RNG output that was not turned into a key before (a pooling
+    implementation is fine, a cached or derived key is not)"""
+    for i, d in enumerate(rng.draws):
+        off = d[2].find(key)
+        while off >= 0:
+            if not any(u[0] == i and u[1] < off + len(key) and off < u[2] for u in used):
+                used.append((i, off, off + len(key)))
+                return
+            off = d[2].find(key, off + 1)
+    if any(d[2].find(key) >= 0 for d in rng.draws):
+        out.fail("C07.fresh-key", "rng-bytes-reused", "session key %s re-uses RNG output already used for an "
+                 "earlier key" % key.hex())
+    else:
+        out.fail("C07.fresh-key", "not-from-rng", "session key %s is not output of the random source" % key.hex())
 
 
 def _writer_encryptors(pool, blocks, opened, env_):
